@@ -61,6 +61,13 @@ Record obj := {
   o_is_module : bool         (* self.module is self *)
 }.
 
+(* Documentable.description -- the <file> in front of every report:
+        source_path = self.source_path                      # the object's OWN source path: an object that is
+        return self.module.fullName() if source_path is None else str(source_path)
+   re-exported through __all__ is reparented (self.module changes) but keeps the path of the defining file *)
+Definition description (own_source_path : option text) (module_fullname : text) : text :=
+  match own_source_path with None => module_fullname | Some p => p end.
+
 (* Documentable.setDocstring *)
 Definition set_docstring (o : obj) (is_end : bool) (node_lineno : Z) (doc : text) : obj * text :=
   let '(ln, d) := extract_docstring is_end node_lineno doc in
@@ -193,6 +200,13 @@ Definition report_errors (verbosity : Z) (st : sys_state) (pe : parse_errors) (o
        pe_add section (o_fullname o) pe)
   end.
 
+(* epydoc2stan.parse_docstring(obj, doc, source): `source` is the object on which the docstring is defined
+   (it differs from `obj` when the docstring is inherited):
+        if errs: reportErrors(source, errs, section=section)                                        *)
+Definition parse_docstring_report (verbosity : Z) (st : sys_state) (pe : parse_errors) (o source : obj)
+           (errs : list perr) (section : text) : sys_state * parse_errors :=
+  report_errors verbosity st pe source errs section.
+
 (* epydoc2stan.Field.report: self.source.report(message, lineno_offset=self.lineno, section='docstring') *)
 Definition field_report (verbosity : Z) (st : sys_state) (source : obj) (message : text) (field_lineno : Z)
   : sys_state :=
@@ -242,6 +256,7 @@ Definition one_run (verbosity : Z) (wae : bool) (header : text) (o : obj) (ps : 
      6 verbosity wae header violations ( (section (name ...)) ... )
                                                -> ( code violations number-of-printed-lines )
      8 docutils-line-opt                       -> ( stored-opt offset )      (rst_reader_perr)
+    10 own-source-path-opt module-fullname     -> description
      9 node-line                               -> ( stored-opt offset )      (rst_consolidated_perr)
      7 verbosity wae header description fullname is_module linenumber has_doc node_lineno doc ( problem ... )
             problem := ( 0 descr stored-opt ) | ( 1 message field_lineno ) | ( 2 message lineno )
@@ -312,6 +327,7 @@ Definition run (s : sexp) : sexp :=
   | 8 =>
     let e := rst_reader_perr [] (to_optZ (nth_s 1 s)) in
     L [of_option A (pe_stored e); A (perr_offset e)]
+  | 10 => of_text (description (to_option to_text (nth_s 1 s)) (to_text (nth_s 2 s)))
   | 9 =>
     let e := rst_consolidated_perr [] (to_Z (nth_s 1 s)) in
     L [of_option A (pe_stored e); A (perr_offset e)]
